@@ -61,6 +61,7 @@ func runC01(c *Config, r *Report) {
 	c01R35(ic, r)
 	c01R36(ic, r)
 	c01R37(ic, r)
+	c01R38(ic, r)
 	c01R3(ic, r)
 	c01R4(ic, r)
 	// R01.5 shared with C02
